@@ -325,6 +325,16 @@ def run(prog, rep, tier, repo):
 
     # ------------------------------------------------------------------ D4 Romberg
     f = prog.func(IF + 'romberg')
+    # a thin wrapper (`romberg(f, a, b, eps, nmax) = romberg_min_levels(f, a, b, eps, 2, nmax)`): the rules read the body that does the work
+    hops_ = 0
+    while f is not None and hops_ < 2 and not f.loop_info():
+        rv_ = f.return_values()
+        if len(rv_) == 1 and tag(rv_[0]) == 'call' and rv_[0][1] in pdb.bodies and rv_[0][1].startswith(IF):
+            rep.touch(f.body.key)
+            f = prog.func(rv_[0][1])
+            hops_ += 1
+        else:
+            break
     key = 'romberg-shape'
     if f is None:
         rep.viol('romberg-shape', key, 'romberg disappeared')
